@@ -177,6 +177,40 @@ class Elsifier(ast.NodeTransformer):
         return node
 
 
+class AdjacentSwapper(ast.NodeTransformer):
+    """Swap adjacent, independent, call-free simple assignments (`a = x; b = y` -> `b = y; a = x` when neither reads or writes a name the
+    other writes).  Each statement takes part in at most one swap."""
+
+    def _info(self, st):
+        if not isinstance(st, ast.Assign) or len(st.targets) != 1 or not isinstance(st.targets[0], ast.Name):
+            return None
+        if any(isinstance(x, (ast.Call, ast.Yield, ast.Await, ast.NamedExpr, ast.Subscript, ast.Attribute)) for x in ast.walk(st.value)):
+            return None
+        w = {st.targets[0].id}
+        r = {x.id for x in ast.walk(st.value) if isinstance(x, ast.Name)}
+        return w, r
+
+    def _block(self, stmts):
+        out = list(stmts)
+        i = 0
+        while i + 1 < len(out):
+            a, b = self._info(out[i]), self._info(out[i + 1])
+            if a and b and not (a[0] & (b[0] | b[1])) and not (b[0] & a[1]):
+                out[i], out[i + 1] = out[i + 1], out[i]
+                i += 2
+            else:
+                i += 1
+        return out
+
+    def generic_visit(self, node):
+        super().generic_visit(node)
+        for field in ('body', 'orelse', 'finalbody'):
+            v = getattr(node, field, None)
+            if isinstance(v, list) and v and isinstance(v[0], ast.stmt) and not isinstance(node, ast.ClassDef):
+                setattr(node, field, self._block(v))
+        return node
+
+
 def rewrite(d, mode):
     for f in sorted(os.listdir(os.path.join(d, 'disk_objectstore'))):
         if not f.endswith('.py'):
@@ -197,6 +231,9 @@ def rewrite(d, mode):
             ast.fix_missing_locations(tree)
         elif mode == 'elsify':
             tree = Elsifier().visit(tree)
+            ast.fix_missing_locations(tree)
+        elif mode == 'swapadj':
+            tree = AdjacentSwapper().visit(tree)
             ast.fix_missing_locations(tree)
         elif mode == 'flip':
             tree = Flipper().visit(tree)
